@@ -91,14 +91,18 @@ theorem old_codec_defect :
 /-! ### Pascal strings -/
 
 /-- Every string the codec can express within 255 bytes round-trips, for every padding. The
-codec law is needed for this string only. -/
+codec law `decode (encode s) = s` is needed for this string only (Python's `shift_jis` breaks
+it for U+00A5 and U+203E, see the known finding). -/
 theorem pascal_roundtrip (e : Encoding) (s : Str) (pad : Nat) (b pre post : BL)
-    (hl : e.Lawful) (he : e.encode s = some b) (hb : b.length ≤ 255) (hp : pad ≠ 0) :
+    (he : e.encode s = some b) (hd : e.decode b = some s) (hb : b.length ≤ 255) (hp : pad ≠ 0) :
     ∃ bs, writePascalString e s pad = .ok bs ∧
       readPascalString e (pre ++ bs ++ post) pre.length pad = .ok (s, pre.length + bs.length) := by
   have hw : writePascalString e s pad = .ok (pascalLayout b pad) :=
     (writePascalString_eq e s pad _).mpr ⟨b, he, hb, hp, rfl⟩
-  exact ⟨_, hw, readPascalString_write e s pad _ pre post (fun b' hb' => hl s b' hb') hw⟩
+  refine ⟨_, hw, readPascalString_write e s pad _ pre post (fun b' hb' => ?_) hw⟩
+  rw [he] at hb'; cases hb'; exact hd
+
+example : ascii.encode [0x61] = some [0x61] ∧ ascii.decode [0x61] = some [0x61] := by decide +kernel
 
 /-- Unencodable or longer than 255 encoded bytes: an error, for every padding. -/
 theorem pascal_rejects (e : Encoding) (s : Str) (pad : Nat) :
@@ -160,14 +164,20 @@ theorem utf8_codec_lawful : utf8.Lawful := utf8_lawful
 /-! ### the layer name -/
 
 /-- `layer.name = n; save(encoding=e); open(encoding=e)` gives `n` back in full, for every
-codec that is lawful and can express `'?'` — whether or not `n` fits the legacy field. -/
-theorem name_keeps_unicode (mac e : Encoding) (he : e.Lawful)
+codec that can express `'?'` and can decode what it encoded (lawful codecs can; so can
+`shift_jis`) — whether or not `n` fits the legacy field. -/
+theorem name_keeps_unicode (mac e : Encoding)
+    (hd : ∀ s b, e.encode s = some b → ∃ s', e.decode b = some s')
     (hq : ∃ b, e.encode [0x3F] = some b ∧ b.length ≤ 255)
     (n : Str) (hs : ∀ c ∈ n, Scalar c) (hlen : n.length < 256) (r0 : NameRec) :
     ∃ r1 lb ub, setName mac n r0 = .ok r1 ∧ writeName e r1 = .ok (lb, some ub) ∧
       ∀ pre post, ∃ r2, readName e (pre ++ lb ++ post) pre.length (some ub) = .ok (r2, pre.length + lb.length)
         ∧ r2.luni = some n ∧ getName r2 = n :=
-  name_roundtrip mac e he hq n (scalar_pyStr n hs) (scalar_noPair n hs) hlen r0
+  name_roundtrip mac e hd hq n (scalar_pyStr n hs) (scalar_noPair n hs) hlen r0
+
+/-- Lawful codecs satisfy the decodability hypothesis of `name_keeps_unicode`. -/
+theorem lawful_decodes (e : Encoding) (h : e.Lawful) : ∀ s b, e.encode s = some b → ∃ s', e.decode b = some s' :=
+  fun s b hb => ⟨s, h s b hb⟩
 
 example : ∃ b, ascii.encode [0x3F] = some b ∧ b.length ≤ 255 := ⟨[0x3F], by decide +kernel, by decide⟩
 example : ∃ b, utf8.encode [0x3F] = some b ∧ b.length ≤ 255 := ⟨[0x3F], by decide +kernel, by decide⟩
